@@ -376,7 +376,7 @@ class TolerantExecutor(FrameExecutor):
                     for r in [x for x in s.locals.values() if isinstance(x, RefV)]:
                         s.assume(n.term != r.term)
                     # the copy carries the scalar settings of the original (isomorphic graph)
-                    for fld in ("integer_positions", "_fixed_income", "_bidoffer_set", "_paper_trade", "commission_fn", "_issec"):
+                    for fld in ("integer_positions", "_fixed_income", "_bidoffer_set", "_paper_trade", "commission_fn", "_issec", "lazy_add", "name"):
                         try:
                             s.heap.set(n, fld, s.heap.get(v, fld))
                         except Exception:
